@@ -51,7 +51,7 @@ CLAIMED = {
          "Everything else of C14 is asynchronous connection code and NOT decided: reacting to UNPREPARED, re-preparing on the same node, comparing the re-prepared id, repeating the request with the same values, batches. Metadata = (column count, optional id), ids are abstract identities. Native replay drives a real Connection (to a local listener that never answers) and real PreparedStatement objects through hooks.",
          S),
  "C15": ("DESIGN.md §5 C15",
-         "One TableTablets::add_tablet step from an ARBITRARY invariant-satisfying pre-state of N tablets (N <= 4 quick, <= 6 thorough; all bounds symbolic i64) followed by tablet_for_token on an arbitrary token: list stays sorted/disjoint, exactly the overlapped tablets disappear, lookup = newest covering tablet or nothing (never stale). Unknown-replica bookkeeping (what lets maintenance be skipped): TableTablets::add_tablet and TabletsInfo::add_tablet preserve 'unresolved tablet => table flag => info flag' and never clear a flag; TabletsInfo::add_tablet routes the tablet to the table named by its TableSpec (creating it if missing) and leaves other tables untouched. TableTablets::perform_maintenance (N <= 2, thorough 3) with the environment's answers symbolic (tablet resolvable now / has a replica on a removed node, any node removed / re-created): exactly the resolved-or-resolvable tablets without a replica on a removed node remain, in order with their old ranges, none unresolved, flag cleared - a discarded tablet's tokens are answered by nothing rather than stale data.",
+         "One TableTablets::add_tablet step from an ARBITRARY invariant-satisfying pre-state of N tablets (N <= 4 quick, <= 6 thorough; all bounds symbolic i64) followed by tablet_for_token on an arbitrary token: list stays sorted/disjoint, exactly the overlapped tablets disappear, lookup = newest covering tablet or nothing (never stale). Unknown-replica bookkeeping (what lets maintenance be skipped): TableTablets::add_tablet and TabletsInfo::add_tablet preserve 'unresolved tablet => table flag => info flag' and never clear a flag; TabletsInfo::add_tablet routes the tablet to the table named by its TableSpec (creating it if missing) and leaves other tables untouched. TableTablets::perform_maintenance (N <= 2, thorough 3) with the environment's answers symbolic (tablet resolvable now / has a replica on a removed node, any node removed / re-created): exactly the resolved-or-resolvable tablets without a replica on a removed node remain, in order with their old ranges, none unresolved, flag cleared - a discarded tablet's tokens are answered by nothing rather than stale data; with node objects tracked (re-created nodes share the object of the current-nodes map, as ClusterState passes them) maintenance never panics and remaining replicas of re-created hosts end at the current object.",
          "Vec/slice operations are modelled as sequence operations (partition_point on partitioned slices, drain, insert, get); the hashbrown map of TabletsInfo is an association list over concrete table names (2 existing tables + 1 new). TabletsInfo::perform_maintenance (dropping tables, HashMap::retain), the contents of replica lists (from_raw_replicas, update_stale_nodes), per-DC restriction and RawTablet::from_custom_payload validation are NOT decided.",
          S + " (+ one Kani cross-check on the empty list)"),
  "C16": ("DESIGN.md §5 C16",
@@ -112,4 +112,4 @@ def manifest():
         "notes": "Technique family: solver-based checking of the real code. exit 0 = all obligations discharged within stated bounds; exit 1 = reproducing counterexample; exit 2 = inconclusive (never reported as pass).",
     }
 
-HOOK_COMMITS = ['1dd854c', 'c81cb68', '3bca3b6', '3ff90ff', 'ace7ba7', '423595e', '1865a12', '55a0502', '6db07cc', '8989f50', 'b07dfd2', '2f1ba89', '2f862e8', 'adaafd7', '8ddb525', 'a6c1b91', 'c0e73a9', 'd95edf8']
+HOOK_COMMITS = ['1dd854c', 'c81cb68', '3bca3b6', '3ff90ff', 'ace7ba7', '423595e', '1865a12', '55a0502', '6db07cc', '8989f50', 'b07dfd2', '2f1ba89', '2f862e8', 'adaafd7', '8ddb525', 'a6c1b91', 'c0e73a9', 'd95edf8', '8ca7451']
